@@ -26,6 +26,7 @@ WIRE["HeadersMacro"] = WIRE["Headers"]
 WIRE["Echo"] = ("echo", {"pe": ("path", 2), "qe": ("query", "qe"), "qo": ("query", "qo"), "ql": ("query", "ql"), "he": ("header", "x-he"),
                          "ho": ("header", "x-ho"), "pq": ("query", "pq"), "po": ("query", "po"), "pl": ("query", "pl"),
                          "ph": ("header", "x-ph"), "pho": ("header", "x-pho")})
+WIRE["Attrs"] = ("attrs", {"b": ("path", 2), "bee": ("path", 3), "sea": ("path", 4), "pq": ("query", "q1"), "hh": ("header", "x-h1")})
 
 
 def base_args(ep, salt):
@@ -52,6 +53,10 @@ def base_args(ep, salt):
         d = {n: "ok:" + mk(n) for n in ("pe", "qe", "qo", "he", "ho", "pq", "po", "ph", "pho")}
         d["ql"] = ["ok:" + mk("ql")]
         d["pl"] = ["ok:" + mk("pl")]
+        return d
+    if ep == "Attrs":
+        d = {n: "ok:" + mk(n) for n in ("b", "bee", "pq", "hh")}
+        d["sea"] = 660000 + salt % 1000
         return d
     if ep == "OptBody":
         return {"body": {"a": 810000 + salt % 1000}}
@@ -137,7 +142,7 @@ def build_case(cid, c, salt, client, server, extra=None):
 
 
 def flavours(ep, k):
-    if ep == "Echo":
+    if ep in ("Echo", "Attrs"):
         return [("macro-blocking", "macro-blocking"), ("macro-async", "macro-async"), ("macro-blocking", "macro-async"), ("macro-async", "macro-blocking")][k % 4]
     if ep in ("NamesMacro", "HeadersMacro"):
         return [("gen-blocking", "macro-blocking"), ("gen-async", "macro-async"), ("macro-blocking", "macro-async"), ("macro-async", "macro-blocking")][k % 4]
@@ -150,7 +155,7 @@ def flavours(ep, k):
 def run_model(pid, tier):
     """TLC over all endpoint configs; returns (cases, states, transitions, runs, coverage)"""
     cases, states, transitions, runs, cov = [], 0, 0, [], {}
-    for ep in ("SafeMix", "Names", "NamesMacro", "Headers", "HeadersMacro", "Echo", "Query", "AuthCookie", "OptBody", "SafeBody"):
+    for ep in ("SafeMix", "Names", "NamesMacro", "Headers", "HeadersMacro", "Echo", "Attrs", "Query", "AuthCookie", "OptBody", "SafeBody"):
         r = vc.tlc(pid, "MCEndpoint", "MCEndpoint_%s.cfg" % ep, workers=4, timeout_s=900)
         if r.error:
             raise vc.ToolError("MCEndpoint_%s: %s" % (ep, r.error))
